@@ -149,6 +149,10 @@ def r2(ctx, F):
                     if peak_field is not None and p1[1][0] != peak_field:
                         good = False
                         why = 'passes self.%s as the open section peak, but process() maintains the peak in self.%s' % (p1[1][0], peak_field)
+            if not calls:
+                # the open section may also be closed in place: `self.save_current_peak(); self.<peaks>` — the peaks after save_current_peak, which
+                # must push the field process() maintains as the running peak onto that same list
+                good, why = closed_in_place(F, f, rv, why)
             top = prov.strip(rv, names=set())
             if f.name != 'into_current_strain_peaks':
                 good = good and top[0] == 'call' and top[1].get('name') == 'difficulty_value'
@@ -276,6 +280,44 @@ def run(ctx):
                     'StrainsVec::into_vec; the numeric re-aggregation identity')
 
 
+def _peak_field(F, skill_adt):
+    proc = F.method(skill_adt, 'process', trait=TRAIT)
+    if proc is None:
+        return None
+    P = prov.prov_of(proc)
+    for bi, si, s in proc.assigns():
+        pl = s['p']
+        pr = [e for e in pl.get('proj', []) if isinstance(e, dict) and 'f' in e]
+        if pl['l'] == 1 and len(pr) == 1:
+            v = P.rvalue(s['rv'], bi, si)
+            if v[0] == 'call' and v[1].get('name') == 'max':
+                return pr[0]['f']
+    return None
+
+
+def closed_in_place(F, f, rv, why):
+    muts = [x for x in prov.walk(rv, limit=300) if x[0] == 'mut' and any(v[0] == 'callref' and v[1].get('name') == 'save_current_peak' for v in x[2])]
+    if len(muts) != 1:
+        return False, why
+    pp = as_param_path(muts[0][1])
+    if pp is None or pp[0] != 1 or len(pp[1]) != 1:
+        return False, why
+    peaks_field = pp[1][0]
+    scp = F.method(f.self_adt, 'save_current_peak', trait=TRAIT)
+    if scp is None:
+        return False, 'save_current_peak of %s not found' % f.self_adt
+    P = prov.prov_of(scp)
+    pushes = [(bi, t) for bi, t in scp.calls() if t['func'].get('name') == 'push' and (t['func'].get('impl_adt') or '').endswith('StrainsVec')]
+    others = [t['func'].get('name') for bi, t in scp.calls() if (bi, t) not in pushes and t['func'].get('name') not in ('deref', 'deref_mut')]
+    if len(pushes) != 1 or others:
+        return False, 'save_current_peak does not consist of exactly one push onto the peaks (%d pushes, other calls %s)' % (len(pushes), others)
+    a = P.call_args(pushes[0][0])
+    p0, p1 = as_param_path(a[0]), as_param_path(a[1])
+    want = _peak_field(F, f.self_adt)
+    ok = p0 == (1, (peaks_field,)) and p1 is not None and p1[0] == 1 and len(p1[1]) == 1 and (want is None or p1[1][0] == want)
+    return ok, why if ok else 'save_current_peak pushes `%s` onto `%s`, expected self.%s onto self.%s' % (prov.show(a[1], maxdepth=3), prov.show(a[0], maxdepth=3), want, peaks_field)
+
+
 # ---- R6: all skills of a mode advance their sections with the same code
 def r6_same_sectioning(ctx, F):
     import re
@@ -354,7 +396,7 @@ def skill_data_leaves(v, end_field, _seen=None, _d=0):
                 if x[0] == 'field':
                     names.append(x[2])
                 x = x[1]
-            if names and names[-1] != end_field:
+            if names and names[-1] not in (end_field if isinstance(end_field, (set, frozenset)) else {end_field}):
                 out.add('self.' + str(names[-1]))
             # the value may have been replaced by a call taking &mut self: look inside `mut` wrappers
             x = v
@@ -393,8 +435,32 @@ def r7_sections_by_time_only(ctx, F):
         step, _, _, place = section_step(f)
         if place is None:
             continue                   # reported by R1
-        end_field = place.split('.')[-1].rstrip(')')
         P = prov.prov_of(f)
+        # time-only state of the skill: the greatest set of self fields every write of which (in process) stores a value that depends on the difficulty
+        # objects, constants and fields of the set only — the section-end accumulator qualifies, the running peak (fed by strain_value_at) does not
+        writes = {}
+        for bi, si, s_ in f.assigns():
+            fl_ = [e.get('f') for e in s_['p'].get('proj', []) if isinstance(e, dict) and 'f' in e]
+            if s_['p']['l'] == 1 and fl_:
+                writes.setdefault(fl_[0], []).append(P.rvalue(s_['rv'], bi, si))
+        for bi, t in f.calls():
+            # a field handed out by &mut (self.peaks.push(..)) is not time-only state
+            for a in t['args']:
+                if a.get('k') in ('copy', 'move'):
+                    pass
+        allowed = set(writes)
+        acc = place.split('.')[-1].rstrip(')')
+        if not acc.startswith('_'):
+            allowed.add(acc)
+        changed = True
+        while changed:
+            changed = False
+            for fld in sorted(allowed):
+                if any(skill_data_leaves(v, frozenset(allowed)) for v in writes.get(fld, [])):
+                    allowed.discard(fld)
+                    changed = True
+        end_field = frozenset(allowed)
+        acc_fields = {fld for fld in allowed}
         effects = []
         for bi, t in f.calls():
             nm = t['func'].get('name') or ''
@@ -402,8 +468,8 @@ def r7_sections_by_time_only(ctx, F):
                 effects.append((bi, nm, t.get('ln')))
         for bi, si, s in f.assigns():
             fl_ = [e.get('f') for e in s['p'].get('proj', []) if isinstance(e, dict) and 'f' in e]
-            if s['p']['l'] == 1 and fl_ and fl_[-1] == end_field:
-                effects.append((bi, 'write of ' + end_field, s.get('ln')))
+            if s['p']['l'] == 1 and fl_ and fl_[-1] in acc_fields:
+                effects.append((bi, 'write of ' + fl_[-1], s.get('ln')))
         skill = f0.self_adt.split('::')[-1]
         bad = {}
         for bi, what, ln in effects:
